@@ -45,6 +45,11 @@ func genC19(d *RunDesc, tier string) {
 			lvl = wl.intn(3) // a template written for another level
 		}
 		t, class, _ := genTemplate(wl, lvl)
+		if wl.chance(1, 8) {
+			// pad to a length at or next to a typical buffer boundary
+			t = padTemplate(wl, t)
+			class += "+padded"
+		}
 		op := Op{K: "exp", Rep: &Ref{I: ri.slot}, Tmpl: t, Class: class, Sweep: true}
 		f := genFault(fl, len(t), false)
 		op.Fault = &f
@@ -61,6 +66,28 @@ func genC19(d *RunDesc, tier string) {
 		ops = append(ops, Op{K: "nilrep", Kind: lvl, Tmpl: t, Class: class, Fault: &f})
 	}
 	d.Tasks = [][]Op{ops}
+}
+
+// padTemplate lengthens a template, without changing what it renders apart from
+// the padding itself, to a size at or next to a power-of-two buffer boundary.
+func padTemplate(r *rng, t string) string {
+	targets := []int{511, 512, 513, 1023, 1024, 1025, 2048, 4095, 4096, 4097, 8191, 8192, 8193, 16384, 32767, 32768, 32769, 65535, 65536, 65537}
+	n := pick(r, targets)
+	if len(t) >= n {
+		return t
+	}
+	need := n - len(t)
+	switch r.intn(3) {
+	case 0: // literal text in front
+		return strings.Repeat("x", need) + t
+	case 1: // a comment action in front (renders nothing)
+		if need >= 9 {
+			return "{{/*" + strings.Repeat("c", need-8) + "*/}}" + t
+		}
+		return strings.Repeat(" ", need) + t
+	default: // literal text behind, ending in a newline
+		return t + strings.Repeat("y", need-1) + "\n"
+	}
 }
 
 // refRender: text/template itself, under a harness-chosen name, over the same
@@ -251,7 +278,22 @@ func runC19(d *RunDesc, res *RunResult) {
 						} else {
 							res.Stats.count("sweep-complete")
 						}
+						var ks []int
 						for k := 0; k <= n; k += step {
+							ks = append(ks, k)
+						}
+						if step > 1 {
+							// sampled sweep: also the offsets at and next to buffer boundaries, and the end
+							for b := 512; b <= n+1 && len(ks) < 120; b *= 2 {
+								for _, k := range []int{b - 1, b, b + 1} {
+									if k >= 0 && k <= n {
+										ks = append(ks, k)
+									}
+								}
+							}
+							ks = append(ks, n-1, n)
+						}
+						for _, k := range ks {
 							for wd := 0; wd < 2; wd++ {
 								sf := Fault{ErrAt: k, ErrKind: (k + wd) % len(injectedErrors), ErrWithData: wd == 1, WriterTo: k%5 == 4}
 								switch k % 4 {
